@@ -8,7 +8,8 @@
 
    Run loop, one action per await point / select branch:
      LoopCancel        select branch `cancel_token.cancelled()` -> break; protocols.shutdown() begins
-     LoopAcceptNone    select branch `endpoint.accept()` -> None (endpoint closed on its own) -> break
+     LoopAcceptNone    select branch `endpoint.accept()` -> None (endpoint closed on its own) -> break; protocols.shutdown()
+                       begins (with ExitOnAcceptNone: the task returns instead, see the constant)
      HandlersDown      `protocols.shutdown().await` completes: every ProtocolHandler::shutdown has returned
      EpClose           `endpoint.close().await` completes
      Exit              join_set drained, future ends: `_cancel_guard` drops (cancels the token), JoinHandle resolves
@@ -37,6 +38,10 @@
 EXTENDS Naturals, Sequences, FiniteSets, TLC, Json
 CONSTANTS Callers,    \* set of strings
           Fixed,      \* BOOLEAN
+          ExitOnAcceptNone, \* BOOLEAN, FALSE = the code: when `endpoint.accept()` yields None the loop `break`s into the
+                      \* shutdown sequence.  TRUE = a deviating design in which that arm leaves the run task at once
+                      \* (`return`), skipping ProtocolHandler::shutdown: refuted by ReturnMeansDone (anti-vacuity for
+                      \* the endpoint-closes-first path: every return there needs HandlersDown first)
           Record      \* BOOLEAN: keep the driver word in `hist` (schedule generation) or not (model checking)
 VARIABLES cancelled,     \* cancel_token.is_cancelled()
           taskSlot,      \* "some" | "none": the shared Option<AbortOnDropHandle>
@@ -64,9 +69,11 @@ Init == /\ cancelled = FALSE /\ taskSlot = "some" /\ loop = "running"
 LoopCancel == /\ loop = "running" /\ cancelled /\ loop' = "stopping"
               /\ Log(<<LoopEv("loop_stop")>>)
               /\ UNCHANGED <<cancelled, taskSlot, epClosed, handlersDone, cpc, holder, ret>>
-LoopAcceptNone == /\ loop = "running" /\ epClosed /\ loop' = "stopping"
-                  /\ Log(<<LoopEv("loop_stop")>>)
-                  /\ UNCHANGED <<cancelled, taskSlot, epClosed, handlersDone, cpc, holder, ret>>
+LoopAcceptNone == /\ loop = "running" /\ epClosed
+                  /\ IF ExitOnAcceptNone
+                        THEN loop' = "exited" /\ cancelled' = TRUE /\ Log(<<LoopEv("exit")>>)   \* `return`: the drop guard fires
+                        ELSE loop' = "stopping" /\ UNCHANGED cancelled /\ Log(<<LoopEv("loop_stop")>>)
+                  /\ UNCHANGED <<taskSlot, epClosed, handlersDone, cpc, holder, ret>>
 HandlersDown == /\ loop = "stopping" /\ loop' = "handlers_down" /\ handlersDone' = TRUE
                 /\ Log(<<LoopEv("gate")>>)
                 /\ UNCHANGED <<cancelled, taskSlot, epClosed, cpc, holder, ret>>
